@@ -730,6 +730,43 @@ pub fn run(prop: &str, tier: &str, replay: Option<&str>) -> i32 {
         });
         rep.add(sec);
     }
+    // (c9) keys chosen for the leading bytes of their SHA-256 (what the automatic serial number is cut from: 00, 80, 7f, ff, 01,
+    // 81, and 00 00 / 80 00): generating twice, self-signed and under an issuer, gives identical to-be-signed bytes
+    if run::replay().is_none() {
+        let keys = super::certfam::serial_edge_keys();
+        let sec = Section::new("repeat/automatic serial of data-dependent keys", &format!("{} stub keys whose SHA-256 starts 00 / 80 / 7f / ff / 01 / 81 or 00 00 / 80 00, automatic serial: the certificate generated 3 times self-signed, under an issuer and self-issued under another name has identical to-be-signed bytes each time", keys.len()));
+        let issuer = stub_issuer_ctx(Alg::EcP256, &DnSpec::cn("issuer"), &KeyIdSpec::Sha256, Alg::Ed25519, "pair");
+        for (n, raw) in keys.iter().enumerate() {
+            let mut out = Outcome::default();
+            let mut st = CertState::default();
+            st.serial = None;
+            st.dn = DnSpec::cn("data-dependent serial");
+            let tbs = |der: &[u8]| refmodel::x509::decode_cert(der).value.map(|a| a.tbs_raw).unwrap_or_default();
+            let mut firsts: Vec<Option<Vec<u8>>> = vec![None, None];
+            for _ in 0..3 {
+                let (kp, _l) = stub_key(Alg::Ed25519, raw);
+                let i = issuer.issuer.as_ref().unwrap();
+                let a = guarded(|| to_params(&st).unwrap().self_signed(&kp).map(|c| c.der().to_vec()));
+                let b = guarded(|| to_params(&st).unwrap().signed_by(&kp, &i.cert, &i.key).map(|c| c.der().to_vec()));
+                out.transitions += 2;
+                for (slot, r) in [(0usize, a), (1, b)] {
+                    if let Ok(Ok(der)) = r {
+                        let t = tbs(&der);
+                        match &firsts[slot] {
+                            None => firsts[slot] = Some(t),
+                            Some(f) if *f != t => out.findings.push(Finding::new("REPEAT-DIFFERENT-OUTPUT", if slot == 0 { "self_signed" } else { "signed_by" }, "generating the same certificate again gave different to-be-signed bytes (automatic serial)")),
+                            _ => {}
+                        }
+                    }
+                }
+            }
+            out.findings.dedup_by(|a, b| a.sig() == b.sig());
+            out.digest = fnv(raw);
+            sec.record(&|| format!("key {:02x?}", &raw[..8]), &|| serde_json::json!({"index": n}), out);
+        }
+        sec.level_done("all listed keys");
+        rep.add(sec);
+    }
     // (d0) the subject key given as the very object that is also the issuer's key, as an equal copy of it, and as a bare
     // SubjectPublicKeyInfo of it: the to-be-signed bytes depend on the key, not on which object carries it
     if run::replay().is_none() {
